@@ -13,7 +13,8 @@
      crecv{conn,id,ok,status,htok,btok}      a client read a response frame: id, success?, token in header / in body
      cclose{conn}                            the client is about to close this connection: its outstanding requests are abandoned
                                              (no reply is owed; a frame that still arrives is judged like any other)
-     quiesce{}                               end of the scenario: everything released, all waits over *)
+     quiesce{patient}                        end of the scenario: everything released, all waits over; patient = the driver has
+                                             waited for outstanding replies longer than any request timeout, so silence may be judged *)
 EXTENDS Integers, Sequences, FiniteSets, TLC, XJudge, VTrace
 
 VARIABLES open,      \* <<conn, dsid>> -> [tok, short, unstable, closedSince, cc, gone] : requests the client is waiting for
@@ -63,7 +64,7 @@ TCclose == /\ IsEvent("cclose")
            /\ UNCHANGED <<done, produced, unstable, closes>>
 
 TQuiesce == /\ IsEvent("quiesce")
-            /\ Expect(\A k \in DOMAIN open : open[k].gone, "request-without-reply")
+            /\ Expect(~Ev.patient \/ \A k \in DOMAIN open : open[k].gone, "request-without-reply")
             /\ UNCHANGED tv
 
 TraceNext == TRun \/ TCsend \/ TUrecv \/ TUsend \/ TUclose \/ TCrecv \/ TCclose \/ TQuiesce
